@@ -30,7 +30,7 @@ fn gg(pattern: &str) -> Value {
     Value::Array(vec![Value::String(s(pattern))])
 }
 fn lw(key: &str, b: bool) -> Value {
-    Value::Array(vec![Value::Object(vec![(s("key"), Value::String(s(key))), (s("value"), Value::Bool(b))])])
+    Value::Array(vec![vobj2("key", Value::String(s(key)), "value", Value::Bool(b))])
 }
 
 /// victim c1 with grave goods `ggp` and last will {a/y: wb}; bystander c2 with its own last will and a
@@ -46,7 +46,7 @@ fn c07_scenario_v(ggp: &str, gg_hits_x: bool, y_cas: bool, xb: bool, yb: bool, y
     let data = n2(
         None,
         "$SYS",
-        n1(None, "clients", n2(plain(Value::Number(2)), ID1, c1, ID2, c2)),
+        n1(None, "clients", n2(plain(vnum(2)), ID1, c1, ID2, c2)),
         "a",
         n2(None, "x", n0(plain(Value::Bool(xb))), "y", n0(Some(y_entry))),
     );
@@ -123,7 +123,7 @@ c07h!(c07_cleanup_sub_spub_lock, {
     // (the victim has registrations - matching nothing - because a *missing* registration sends the engine
     // down an infeasible but unfolded path that deserialises a garbage value: out of memory)
     let c1 = n2(None, "graveGoods", n0(plain(gg("zz"))), "lastWill", n0(plain(lw("a", false))));
-    wb.store = store_of(n2(None, "$SYS", n1(None, "clients", n1(plain(Value::Number(2)), ID1, c1)), "a", n0(plain(Value::Bool(ab)))), 3);
+    wb.store = store_of(n2(None, "$SYS", n1(None, "clients", n1(plain(vnum(2)), ID1, c1)), "a", n0(plain(Value::Bool(ab)))), 3);
     wb.clients = HashMap::from_slots([Some((cid(1), ClientInfo::new())), Some((cid(2), ClientInfo::new()))]);
     let r1 = aw!(wb.subscribe(cid(1), 1, s("a"), false, true));
     let r2 = aw!(wb.subscribe(cid(2), 2, s("a"), false, true));
@@ -178,7 +178,7 @@ c07h!(c07_gg_hash_spares_others, {
     use crate::store::h::{n0, n1, n2, store_of};
     let c1 = n2(None, "graveGoods", n0(plain(gg("#"))), "lastWill", n0(plain(lw("a/y", true))));
     let c2 = n1(None, "lastWill", n0(plain(lw("a/x", true))));
-    let data = n2(None, "$SYS", n1(None, "clients", n2(plain(Value::Number(2)), ID1, c1, ID2, c2)), "a", n1(None, "x", n0(plain(Value::Bool(true)))));
+    let data = n2(None, "$SYS", n1(None, "clients", n2(plain(vnum(2)), ID1, c1, ID2, c2)), "a", n1(None, "x", n0(plain(Value::Bool(true)))));
     let mut wb = Worterbuch::with_config(cfg());
     wb.store = store_of(data, 5);
     wb.clients = HashMap::from_slots([Some((cid(1), ClientInfo::new())), Some((cid(2), ClientInfo::new()))]);
@@ -200,7 +200,7 @@ c07h!(c07_gg_hash_spares_others, {
 c07h!(c07_will_on_sys_refused, {
     use crate::store::h::{n0, n1, n2, store_of};
     let c1 = n2(None, "graveGoods", n0(plain(Value::Bool(true))), "lastWill", n0(plain(lw("$SYS/s", false))));
-    let data = n2(None, "$SYS", n2(None, "clients", n1(plain(Value::Number(1)), ID1, c1), "s", n0(plain(Value::Bool(true)))), "a", n0(plain(Value::Bool(true))));
+    let data = n2(None, "$SYS", n2(None, "clients", n1(plain(vnum(1)), ID1, c1), "s", n0(plain(Value::Bool(true)))), "a", n0(plain(Value::Bool(true))));
     let mut wb = Worterbuch::with_config(cfg());
     wb.store = store_of(data, 5);
     wb.clients = HashMap::from_slots([Some((cid(1), ClientInfo::new())), None]);
